@@ -19,9 +19,9 @@ client's cookie step takes from its environment (`AuthClient.Env`) is therefore 
 moment the client handles the line (`envOf`):
   user       `getpass.getuser()` (`Cfg.user`)
   dirStat    `os.stat(<client home>/.dbus-keyrings)`: absent -> raises; a directory the bus created during this
-             connection (absent before) has mode 0o40700 and - the bus chowns it to the user when it runs as root
-             (`os.chown(dk, self.uid, self.gid)`, not part of the C06 model) - is owned by the client's euid iff
-             `createdOwned`; a directory that existed before has `Cfg.initStat`
+             connection (absent before) has mode 0o40700 and belongs to the bus's euid - or, when the bus runs as
+             root, to the user (`os.chown(dk, self.uid, self.gid)`, not part of the C06 model): the client's
+             ownership test passes iff `createdOwned`; a directory that existed before has `Cfg.initStat`
   file ctx   the cookie file `<client home>/.dbus-keyrings/<ctx>` exists only for the bus's own context; its
              content is the bus's entries written as `_create_cookie` / `_delete_cookie` write them:
              `b' '.join((id, time, cookie)) + b'\n'` per entry (`renderFile`)
@@ -58,9 +58,9 @@ structure Cfg where
   /-- `os.stat` of the client's keyring directory when it existed before the connection:
   (`st_mode`, `st_uid == pwd.getpwuid(os.geteuid()).pw_uid`) -/
   initStat : Nat × Bool
-  /-- `os.geteuid() == 0` in the bus process -/
-  root : Bool
-  /-- `pwd.getpwuid(os.geteuid()).pw_uid` in the client process -/
+  /-- `os.geteuid()` in the BUS process (0: it chowns a keyring directory it creates to the user) -/
+  busEuid : Nat
+  /-- `pwd.getpwuid(os.geteuid()).pw_uid` in the CLIENT process -/
   euid : Nat
   /-- `str(e).encode('unicode-escape')` of the exception the client's cookie step caught -/
   errText : AuthClient.CookieErr → Bytes
@@ -79,11 +79,12 @@ def renderFile (es : List CookieEnt) : Bytes := (es.map renderEnt).flatten
 def busUserEntry (cfg : Cfg) : Option PwEnt :=
   (AuthServer.resolveUser cfg.w0.cfg cfg.user).bind (AuthServer.getpwnam cfg.w0.cfg)
 
-/-- A keyring directory the bus creates belongs to the bus's euid, or - when the bus is root - to the user it
-was created for.  Does the client's ownership test (`st_uid == pw_uid of the client's euid`) pass? -/
+/-- A keyring directory the bus creates (`os.mkdir`) belongs to the bus's euid, or - when the bus is root
+(`os.chown(dk, self.uid, self.gid)`) - to the user it was created for.  Does the client's ownership test
+(`st_uid == pw_uid of the client's euid`) pass? -/
 def createdOwned (cfg : Cfg) : Bool :=
   match busUserEntry cfg with
-  | some e => !cfg.root || e.uid == cfg.euid
+  | some e => (if cfg.busEuid = 0 then e.uid else cfg.busEuid) == cfg.euid
   | none => true
 
 /-- `os.stat(<client home>/.dbus-keyrings)` as the client sees it in world `w`. -/
